@@ -36,7 +36,48 @@ func isBenignCall(ci ssa.CallInstruction) bool {
 	case "os":
 		return f.Name() == "Name" // (*os.File).Name in log arguments
 	}
-	return false
+	return passesNoData(ci)
+}
+
+// passesNoData: a statically resolved call none of whose operands can carry bytes that were read (or the object
+// holding them): every argument, the receiver included, is a constant, a scalar of a basic type other than a
+// string, or the address of a package-level variable (or of a field of one).  Counters
+// (`numReadErrors.Add(1)`), configuration getters (`config.IsDebugMode()`) and clocks are of this kind; a decoder
+// is not, it takes the buffer or the reader.
+func passesNoData(ci ssa.CallInstruction) bool {
+	cc := ci.Common()
+	if cc.IsInvoke() || cc.StaticCallee() == nil {
+		return false
+	}
+	if cc.StaticCallee().Parent() != nil || len(cc.StaticCallee().FreeVars) > 0 {
+		return false
+	}
+	var rooted func(v ssa.Value, depth int) bool
+	rooted = func(v ssa.Value, depth int) bool {
+		if depth > 3 {
+			return false
+		}
+		switch x := v.(type) {
+		case *ssa.Global:
+			return true
+		case *ssa.FieldAddr:
+			return rooted(x.X, depth+1)
+		}
+		return false
+	}
+	for _, a := range cc.Args {
+		if _, isK := a.(*ssa.Const); isK {
+			continue
+		}
+		if bt, ok := a.Type().Underlying().(*types.Basic); ok && bt.Info()&types.IsString == 0 && bt.Kind() != types.UnsafePointer {
+			continue
+		}
+		if rooted(a, 0) {
+			continue
+		}
+		return false
+	}
+	return true
 }
 
 // fieldOfLoad: v is a load of recv.field (possibly sliced); returns the field.
